@@ -18,7 +18,8 @@ BUDGET = {'quick': 400, 'thorough': 1500}
 RULE = ('Hypothesis-generated base histories (dispatch / disable / enable / add_handler / remove_handler over 1-4 '
         'recorder handlers listening to subsets of 4 event names, on a plain EventDispatcher or on a World used '
         'as dispatcher). Each base history is executed fault-free and then once for EVERY pair (global delivery '
-        'position k, fault in {raise RuntimeError, raise Quit, raise SwitchWorld, set dispatch_enabled=False}), '
+        'position k, fault in {raise RuntimeError, raise Quit, raise SwitchWorld, set dispatch_enabled=False, '
+        're-entrant dispatch_enabled=True, disable-then-enable inside the callback}), '
         'followed by enable; enable. Oracle = trace invariants: no '
         'callback while disabled (except the remaining listeners of the very occurrence during which a callback '
         'disabled dispatching), never the same (occurrence, listener) twice, released occurrences reach each '
@@ -35,11 +36,13 @@ ASSUMPTIONS = [
     'events dispatched while enabled are not ordered relative to a backlog left behind by an exception',
     'occurrences whose name had no listener when they were dispatched may or may not be delivered',
     'callbacks do not add or remove handlers (that is C03)',
+    'in runs whose injected fault is a re-entrant enable (or disable-then-enable) from a callback the per-listener '
+    'dispatch order is not judged (the nested release overtakes the outer one by construction)',
     'enable runs under a budget of 100000 executed lines inside desper (normal releases need < 1000)',
 ]
 FINDINGS = {}
 EVENTS = ['a', 'b', 'c', 'd']
-FAULTS = ['RuntimeError', 'Quit', 'SwitchWorld', 'disable']
+FAULTS = ['RuntimeError', 'Quit', 'SwitchWorld', 'disable', 'enable', 'toggle']
 ENABLE_BUDGET = 100000
 
 
@@ -153,7 +156,7 @@ class Execution:
             self.viol('occurrence_delivered_twice_to_the_same_listener', handler=h.ix, token=token)
         self.delivered.add((token, h.ix))
         self.log.append((token, h.ix))
-        if token in self.queued:
+        if token in self.queued and not (self.fault and FAULTS[self.fault[1]] in ('enable', 'toggle')):
             last = self.last_token_per_handler.get(h.ix, -1)
             if token < last:
                 self.viol('released_occurrences_out_of_dispatch_order', handler=h.ix, token=token, after=last)
@@ -168,8 +171,13 @@ class Execution:
                 self.d.dispatch_enabled = False
                 self.enabled = False
                 self.tolerate_token = token
-            elif kind == 'enable':
-                # re-entrant enabling from a callback: legal, must neither duplicate nor reorder
+            elif kind in ('enable', 'toggle'):
+                # re-entrant enabling from a callback (toggle: disable first).  The nested release legitimately
+                # hands later occurrences to listeners that have not yet seen the current one, so dispatch order
+                # is not judged in these runs; never-twice, no-loss and termination are.
+                if kind == 'toggle':
+                    self.d.dispatch_enabled = False
+                    self.enabled = False
                 self.set_enabled_nested()
             else:
                 if kind == 'RuntimeError':
@@ -182,14 +190,18 @@ class Execution:
                 raise exc
 
     def set_enabled_nested(self):
-        was = self.enabled
         self.enabled = True
+        self.tolerate_token = None
         try:
-            self.d.dispatch_enabled = True
+            with_budget(ENABLE_BUDGET, setattr, self.d, 'dispatch_enabled', True)
+        except PropertyViolation:
+            raise
+        except StepBudgetExceeded as exc:
+            self.viol('enabling_assignment_does_not_terminate', error=str(exc), nested=True)
+        except RecursionError as exc:
+            self.viol('enabling_assignment_does_not_terminate', error=repr(exc), nested=True)
         except Exception as exc:
             self.viol('nested_enable_raised', exception=repr(exc))
-        if not was:
-            self.tolerate_token = None
 
     # ---- ops ----------------------------------------------------------------------------------------
     def guarded(self, fn, what):
